@@ -21,6 +21,7 @@ func c19(c *eng.Ctx, r *eng.Report) {
 		"R19.4 count, lastGroup and the groups store are written only by save, remove and initGroupChain; " +
 		"R19.5 every caller of remove walks from the current top downwards (remove is only correct for the last group) inside one critical section of the chain lock; " +
 		"R19.6 no process-local cache sits in front of the group store unless remove() evicts from it. " +
+		"R19.7 no write batch outlives a save unreset: every Write() on a batch kept in a struct field of package core is followed by Reset() on every path (none exists today; the rule is armed for the day save() is batched). " +
 		"Not decided: a crash between the un-batched Puts of one save/remove (no intent mark exists)."
 	r.Assume = []string{"groupChain methods that mutate run under chain.lock (checked for AddGroup; removeFromCommonAncestor takes it itself)"}
 	save := c.Func("core", "(*groupChain).save")
@@ -41,6 +42,7 @@ func c19(c *eng.Ctx, r *eng.Report) {
 	c19AddGroup(c, r)
 	c19Keys(c, r, save)
 	c19Writers(c, r)
+	batchResetAs(c, r, "R19.7", "core", 0)
 }
 
 type gcOp struct {
@@ -376,5 +378,52 @@ func c19Writers(c *eng.Ctx, r *eng.Report) {
 			continue
 		}
 		r.Check(allowed[name], rule, "writer:"+name, c.Pos(fn.Pos()), "reviewed writer of the group store / count / last group", name+" writes the group store, the count or the last-group pointer outside save/remove/init: the list and its index can diverge")
+	}
+}
+
+// batchResetAs: a write batch that outlives the function using it (it is
+// loaded from a struct field) replays whatever it still holds with the next
+// Write(). Every Write() on such a batch is followed, on every path to a
+// return, by Reset() on the same batch.
+func batchResetAs(c *eng.Ctx, r *eng.Report, rule, pkg string, min int) {
+	n := 0
+	for _, fn := range c.PkgFuncs(pkg) {
+		if c.IsTestFunc(fn) {
+			continue
+		}
+		i := 0
+		for _, s := range eng.Sites(fn) {
+			call, ok := s.Instr.(*ssa.Call)
+			if !ok || !call.Call.IsInvoke() || call.Call.Method.Name() != "Write" || !strings.HasSuffix(call.Call.Value.Type().String(), "db.Batch") {
+				continue
+			}
+			ld, isLoad := call.Call.Value.(*ssa.UnOp)
+			if !isLoad {
+				continue // a batch made in this function dies with it
+			}
+			if _, isField := ld.X.(*ssa.FieldAddr); !isField {
+				continue
+			}
+			n++
+			which := eng.Desc(call.Call.Value)
+			isReset := func(in ssa.Instruction) bool {
+				c2, ok := in.(*ssa.Call)
+				return ok && c2.Call.IsInvoke() && c2.Call.Method.Name() == "Reset" && eng.Desc(c2.Call.Value) == which
+			}
+			leak := ""
+			for _, re := range eng.Returns(fn) {
+				if reach, _ := eng.ReachAvoiding(fn, call, re, isReset); reach {
+					leak = c.Pos(re.Ret.Pos())
+				}
+			}
+			key := fmt.Sprintf("batch-reset:%s#%d", eng.FuncName(fn), i)
+			i++
+			r.Check(leak == "", rule, key, c.Pos(call.Pos()), which+".Write() is followed by Reset() on every path", eng.FuncName(fn)+" writes the long-lived batch "+which+" and can return (at "+leak+") without resetting it: the next Write() replays everything written since start-up — harmless while entries are only added, but after a removal it puts the removed records and index entries back")
+		}
+	}
+	if n < min {
+		r.Fail(rule, "batch-reset:sites", "", fmt.Sprintf("only %d Write() calls on long-lived batches found in %s (%d expected)", n, pkg, min))
+	} else {
+		r.Pass(rule, "batch-reset:sites", "", fmt.Sprintf("%d Write() calls on long-lived batches in %s", n, pkg))
 	}
 }
